@@ -175,7 +175,10 @@ __CPROVER_ensures((T_RV == 0 && T_N == T_TOT) ==> ((g_sendq.n > 0 && !P->closed)
 #define N_GT OLD(P->gottxhead)
 #define N_GR OLD(P->gotrxhead)
 #define N_ERR (EP->closed || N_RV != 0)
-#define N_REJECTED(code) (g_negoq.n == OLD(g_negoq.n) - 1 && !g_negoq.has_p && !g_waitq.has_p && g_waitq.n == OLD(g_waitq.n) && g_sclose_calls == OLD(g_sclose_calls) + 1 && g_io_conn == P->conn && g_pipe_close_calls == OLD(g_pipe_close_calls) + 1 && g_pipe_rele_calls == OLD(g_pipe_rele_calls) + 1 && EP->useraio == NULL && (OLD(EP->useraio) != NULL ? TF_FIN_IS(OLD(EP->useraio), code, 0) : g_fin_calls == OLD(g_fin_calls)) && g_send_calls == OLD(g_send_calls) && g_recv_calls == OLD(g_recv_calls))
+/* refused: never handed out (not on waitpipes, the waiting accept gets the error, not the pipe), stream closed, pipe
+ * closed and released.  sockfd.c leaves the pipe on negopipes until sfd_tran_pipe_stop unlinks its node (tcp.c/ipc.c
+ * unlink it here already); the property does not care, so negopipes is left unconstrained in this case. */
+#define N_REJECTED(code) (!g_waitq.has_p && g_waitq.n == OLD(g_waitq.n) && g_sclose_calls == OLD(g_sclose_calls) + 1 && g_io_conn == P->conn && g_pipe_close_calls == OLD(g_pipe_close_calls) + 1 && g_pipe_rele_calls == OLD(g_pipe_rele_calls) + 1 && EP->useraio == NULL && (OLD(EP->useraio) != NULL ? TF_FIN_IS(OLD(EP->useraio), code, 0) : g_fin_calls == OLD(g_fin_calls)) && g_send_calls == OLD(g_send_calls) && g_recv_calls == OLD(g_recv_calls))
 static void sfd_tran_pipe_nego_cb(void *arg)
 __CPROVER_requires(__CPROVER_is_fresh(arg, sizeof(sfd_tran_pipe)) && __CPROVER_is_fresh(P->ep, sizeof(sfd_tran_ep)))
 __CPROVER_requires(EP->useraio == NULL || __CPROVER_is_fresh(EP->useraio, sizeof(nni_aio)))
